@@ -271,9 +271,12 @@ myth_tls_key_allocator_alloc(myth_tls_key_allocator_t * s,
 			     myth_tls_destructor_fun_t destructor) {
   while (1) {
     /* try to pull the element from the free list */
+    MYTH_VERIF_POINT("key.alloc.readhead", s, 0);
     myth_tls_key_entry_t * ke = s->free;
     if (ke) {
+      MYTH_VERIF_POINT("key.alloc.readnext", s, ke - s->keys);
       myth_tls_key_entry_t * next = ke->next;
+      MYTH_VERIF_POINT("key.alloc.cas", s, ke - s->keys);
       if (__sync_bool_compare_and_swap(&s->free, ke, next)) {
 	/* mark the key as used */
 	ke->next = (myth_tls_key_entry_t *)-1;
@@ -294,14 +297,17 @@ myth_tls_key_allocator_dealloc(myth_tls_key_allocator_t * s, int key) {
   }
   myth_tls_key_entry_t * ke = &s->keys[key];
   /* make sure the key is being used */
+  MYTH_VERIF_POINT("key.dealloc.check", s, key);
   if (ke->next != (myth_tls_key_entry_t *)-1) {
     return (myth_tls_destructor_fun_t)-1;
   }
   myth_tls_destructor_fun_t f = ke->destructor;
   while (1) {
     /* try to push the cell to the free list */
+    MYTH_VERIF_POINT("key.dealloc.readhead", s, key);
     myth_tls_key_entry_t * head = s->free;
     ke->next = head;
+    MYTH_VERIF_POINT("key.dealloc.cas", s, key);
     if (__sync_bool_compare_and_swap(&s->free, head, ke)) {
       return f;
     }
